@@ -88,43 +88,43 @@ field Reader.reader
     ensures[damaged] position == recPos(self.gfile, recN(self.gfile)) && !tailClean(self.gfile) ==> is(err, ErrCorrupted) && !is(err, io.EOF)
 
 // ---- file header (C13): FF 'k' 'l' 'e' 'v' 's', the version marker, a reserved zero byte
-axiom vlast := VLast == V2
-axiom magicBytes := magic[0] == 255 && magic[1] == 107 && magic[2] == 108 && magic[3] == 101 && magic[4] == 118 && magic[5] == 115
+axiom logVlast := VLast == V2
+axiom logMagicBytes := magic[0] == 255 && magic[1] == 107 && magic[2] == 108 && magic[3] == 101 && magic[4] == 118 && magic[5] == 115
 
-pred hdrMagic(h []byte) := len(h) >= 6 && abs(h, base(h)) == 255 && abs(h, base(h)+1) == 107 && abs(h, base(h)+2) == 108 && abs(h, base(h)+3) == 101 && abs(h, base(h)+4) == 118 && abs(h, base(h)+5) == 115
-pred hdrV2(h []byte) := len(h) >= 8 && hdrMagic(h) && abs(h, base(h)+6) == 1 && abs(h, base(h)+7) == 0
+pred logHdrMagic(h []byte) := len(h) >= 6 && abs(h, base(h)) == 255 && abs(h, base(h)+1) == 107 && abs(h, base(h)+2) == 108 && abs(h, base(h)+3) == 101 && abs(h, base(h)+4) == 118 && abs(h, base(h)+5) == 115
+pred logHdrV2(h []byte) := len(h) >= 8 && logHdrMagic(h) && abs(h, base(h)+6) == 1 && abs(h, base(h)+7) == 0
 
 func (Version).newHeader
     flags noframe
     ensures[layout_v1] v == V1 ==> ret0 == nil && ret1 == nil
-    ensures[layout_v2] v == V2 ==> ret1 == nil && len(ret0) == 8 && hdrV2(ret0)
+    ensures[layout_v2] v == V2 ==> ret1 == nil && len(ret0) == 8 && logHdrV2(ret0)
     ensures[layout_unknown] v != V1 && v != V2 ==> ret1 != nil
 
 func headerParse
     flags noframe
     requires len(h) >= 8 && bytesOK(h)
-    ensures[layout_v2]     hdrV2(h) ==> ret0 == V2 && ret1 == nil
-    ensures[layout_only]   ret1 == nil && ret0 == V2 ==> hdrV2(h)
+    ensures[layout_v2]     logHdrV2(h) ==> ret0 == V2 && ret1 == nil
+    ensures[layout_only]   ret1 == nil && ret0 == V2 ==> logHdrV2(h)
     // no magic: a headerless V1 file iff its first record carries the segment's base offset
-    ensures[layout_v1]     !hdrMagic(h) ==> (ret1 == nil <==> s64(sb64(h, 0)) == offset) && (ret1 == nil ==> ret0 == V1)
+    ensures[layout_v1]     !logHdrMagic(h) ==> (ret1 == nil <==> s64(sb64(h, 0)) == offset) && (ret1 == nil ==> ret0 == V1)
     ensures[layout_result] ret1 == nil ==> ret0 == V1 || ret0 == V2
     ensures[layout_failed] ret1 != nil ==> ret0 == VUnknown
 
 // the record reader / writer installed for a file is the one of the file's version
-pred readerOK(r *Reader) := (r.v == V1 ==> fnIs(r.reader, "message.readV1$bound")) && (r.v == V2 ==> fnIs(r.reader, "message.readV2$bound")) && (r.v == V1 || r.v == V2)
-pred writerOK(w *Writer) := (w.version == V1 ==> fnIs(w.writer, "message.writeV1$bound")) && (w.version == V2 ==> fnIs(w.writer, "message.writeV2$bound")) && (w.version == V1 || w.version == V2)
+pred recReaderOK(r *Reader) := (r.v == V1 ==> fnIs(r.reader, "message.readV1$bound")) && (r.v == V2 ==> fnIs(r.reader, "message.readV2$bound")) && (r.v == V1 || r.v == V2)
+pred recWriterOK(w *Writer) := (w.version == V1 ==> fnIs(w.writer, "message.writeV1$bound")) && (w.version == V2 ==> fnIs(w.writer, "message.writeV2$bound")) && (w.version == V1 || w.version == V2)
 
 // I/O: a reader opened on a path sees the content of the file at that path (UNLABELLED clauses: assumed; the
 // selection of the record reader by the version found in the header is proved); on an
 // undamaged file it fails only with OS errors (damaged files are the subject of C07/C14)
 func OpenReaderMem
     flags noframe only_layout
-    ensures[layout_reader] err == nil ==> r != nil && readerOK(r)
+    ensures[layout_reader] err == nil ==> r != nil && recReaderOK(r)
     ensures err == nil ==> r != nil && fresh(r) && r.gfile == fsContent[path]
     ensures err != nil ==> ioerr(err)
 func OpenReader
     flags noframe only_layout
-    ensures[layout_reader] err == nil ==> r != nil && readerOK(r)
+    ensures[layout_reader] err == nil ==> r != nil && recReaderOK(r)
     ensures err == nil ==> r != nil && fresh(r) && r.gfile == fsContent[path] && r.Path == path
     // the version found in the file header; records start right after the header (V2) or at 0 (V1)
     ensures err == nil ==> (r.v == V1 || r.v == V2) && r.v == verOf(r.gfile) && recPos(r.gfile, 0) == ite(r.v == V1, 0, 8)
@@ -196,7 +196,7 @@ pred wrOK(w *Writer) := w != nil && w.f != nil && fPath[w.f] == w.Path
 // record writer by the version (of the header found, or of the header written into an empty file) is proved
 func OpenWriter
     flags noframe only_layout
-    ensures[layout_writer] retErr == nil ==> w != nil && writerOK(w)
+    ensures[layout_writer] retErr == nil ==> w != nil && recWriterOK(w)
     assigns fPath, fsExists, fsDirty, fsContent
     ensures err == nil ==> w != nil && fresh(w) && wrOK(w) && w.Path == path
     ensures err != nil ==> w == nil
